@@ -89,5 +89,8 @@ def called_before(ctx, f: Func, callee: str, label: str, before_super: bool = Tr
     good = len(cs) >= 1 and (not before_super or (sup is not None and cs[0].lineno < sup.lineno))
     if good and first_arg is not None:
         good = bool(cs[0].args) and astx.u(cs[0].args[0]) == first_arg
+        # ... and that name still holds the caller's argument there (not rebound earlier in the constructor)
+        rebound = [n for n in astx.walk_own(f.node) if isinstance(n, ast.Name) and n.id == first_arg and isinstance(n.ctx, ast.Store) and n.lineno < cs[0].lineno]
+        good = good and not rebound
     ctx.check(good, f, cs[0] if cs else f.node, label, "", f"{callee}() is not called on the constructor's profile before the election runs")
     return good
